@@ -591,6 +591,11 @@ def verify_contract(con, instance=None, timeout_ms=30000, resolver=None, want_sm
                         raise OutOfSubset('return value %s vs declared %s' % (val.ty, rty))
                     ost.env['ret'] = c
                 ost.old = old
+                # a parameter that the body RE-BINDS (`update = {...}`) is a local from then on: in the postcondition the
+                # parameter name means the argument the caller passed (unless the contract lists it under `mutates`)
+                for p_ in _rebound_params(body, params):
+                    if p_ not in con.mutates and p_ != 'self' and p_ in old.env:
+                        ost.env[p_] = old.env[p_]
                 ctx.mode = 'spec'
                 if con.raises is not None and con.raises.get('when'):
                     w = parse_exprs([con.raises['when']])[0]
@@ -721,6 +726,24 @@ def verify_contract(con, instance=None, timeout_ms=30000, resolver=None, want_sm
     finally:
         res.time = time.time() - t0
     return res
+
+
+def _rebound_params(body, params):
+    """parameters that are the target of a plain-name assignment somewhere in the body"""
+    out = set()
+    for n in ast.walk(ast.Module(body=body, type_ignores=[])):
+        tgts = []
+        if isinstance(n, ast.Assign):
+            tgts = n.targets
+        elif isinstance(n, (ast.AugAssign, ast.AnnAssign)):
+            tgts = [n.target]
+        elif isinstance(n, (ast.For, ast.comprehension)):
+            tgts = [n.target]
+        for t in tgts:
+            for m in ast.walk(t):
+                if isinstance(m, ast.Name) and m.id in params and isinstance(getattr(m, 'ctx', None), ast.Store):
+                    out.add(m.id)
+    return out
 
 
 def _bound_names(con):
